@@ -646,6 +646,9 @@ func (r *reporter) flush(mets []m3thrift.Metric) []m3thrift.Metric {
 	})
 	if err != nil {
 		r.numWriteErrors.Inc()
+		// The client gives up at the first failed write without flushing:
+		// end the message here so that the next batch starts clean.
+		_ = r.client.Transport.Flush()
 	}
 
 	// n.b. In the event that we had allocated additional tag storage in
